@@ -15,6 +15,7 @@ func init() {
 			return []runner.Job{
 				{Harness: "c10.sched", Mode: "shim", Shards: 16},
 				{Harness: "c10.sched", Mode: "racevar", Shards: 16},
+				{Harness: "c10.free", Mode: "racefree", Shards: 8, GC: "on"},
 			}
 		},
 	})
